@@ -24,6 +24,12 @@ def make_project(nfiles=1, nmod=1, nprog=1, nproc=1, ntype=1, nabs=0, nblock=0, 
             if private_impls and in_module:
                 L.append(f"private :: gimpl{g}")
             C += [f"subroutine gimpl{g}(x)", f"  !! specific {g}", "  !!", f"  !! second paragraph of specific {g}", "  integer :: x", f"end subroutine gimpl{g}"]
+        if ngen and ntype and in_module:
+            # structure-constructor overload: a generic interface with the name of the type
+            L += ["interface ty1", "  !! constructor interface of [[ty1(type)]]", "  module procedure mk_ty1", "end interface ty1"]
+            if private_impls:
+                L.append("private :: mk_ty1")
+            C += ["function mk_ty1(c) result(r)", "  !! makes a ty1", "  integer, intent(in) :: c", "  type(ty1) :: r", "  r%comp1 = c", "end function mk_ty1"]
         return L, C
 
     def nl_lines():
